@@ -404,6 +404,20 @@ def returns (dims : List Dim) (f : Call → Except Err PyResult) (c : Call) : Tr
     if (r.asTuple.zip dims).all (fun p => hasDimensions p.1.dim p.2) then ⟨true, .ok r⟩
     else ⟨true, .error .TypeError⟩
 
+/-- a *history* of calls of one decorated function `accepts(**arg_units)(f)`: the decorator keeps
+    no state between calls (its closure holds only `arg_units`, `f` and `co_varnames`), so the
+    outcomes are the outcomes of the single calls, in order -/
+def acceptsHistory {β : Type} (argUnits : List (String × Dim)) (varnames : List String)
+    (f : Call → Except Err β) : List Call → List (Traced β)
+  | [] => []
+  | c :: cs => accepts argUnits varnames f c :: acceptsHistory argUnits varnames f cs
+
+/-- likewise for one function decorated with `returns(*dims)` -/
+def returnsHistory (dims : List Dim) (f : Call → Except Err PyResult) :
+    List Call → List (Traced PyResult)
+  | [] => []
+  | c :: cs => returns dims f c :: returnsHistory dims f cs
+
 /-- a Python signature as far as binding of the checked parameters goes -/
 structure Sig where
   /-- `co_varnames` -/
